@@ -362,6 +362,23 @@ func (h *harness) point(tag string, step int, v any) {
 	h.sim.Point(tag, step, data)
 }
 
+// checkpoint waits until the process is quiescent and reports what the last step left behind.
+func (h *harness) checkpoint(tag string, g0 int) {
+	open := h.sim.Quiesce("post")
+	n := runtime.NumGoroutine()
+	for i := 0; i < 2000 && n > g0; i++ {
+		runtime.Gosched()
+		n = runtime.NumGoroutine()
+	}
+	extra := 0
+	if n > g0 {
+		// runtime helpers (finalizers, cleanups) are counted while they run: only goroutines
+		// that sit in library code are the call's
+		extra = libraryGoroutines()
+	}
+	h.point(tag, -1, map[string]int{"goroutines": extra, "sockets": open})
+}
+
 type kept struct {
 	step int
 	op   model.Op
@@ -423,23 +440,18 @@ func (h *harness) task(ti int) {
 				keep = append(keep, kept{si, st.Op, val, rec})
 			}
 			if h.sc.Checkpoints {
-				open := h.sim.Quiesce("post")
-				n := runtime.NumGoroutine()
-				for i := 0; i < 2000 && n > g0; i++ {
-					runtime.Gosched()
-					n = runtime.NumGoroutine()
-				}
-				extra := 0
-				if n > g0 {
-					// runtime helpers (finalizers, cleanups) are counted while they run: only goroutines
-					// that sit in library code are the call's
-					extra = libraryGoroutines()
-				}
-				h.point("checkpoint", -1, map[string]int{"goroutines": extra, "sockets": open})
+				h.checkpoint("checkpoint", g0)
 			}
 
 		case "listen":
+			if h.sc.Checkpoints && si == 0 {
+				h.sim.Quiesce("pre")
+				g0 = runtime.NumGoroutine()
+			}
 			h.listen(ti, si, st)
+			if h.sc.Checkpoints {
+				h.checkpoint("checkpoint-listen", g0)
+			}
 
 		case "putback":
 			// write the card that was read last back to the controller, as returned
